@@ -267,7 +267,12 @@ class AllFixedSizeElementLocator : public BaseAllFixedSizeElementLocator
     using FixedSizesArray = typename detail::ParameterListTraits<Parameter...>::FixedSizesArray;
 
   public:
-    AllFixedSizeElementLocator() = default;
+    // A default-constructed vector has FixedSize spans of size zero. Its stride must already be the size of such
+    // an element, otherwise a later reserve() computes an empty block and strides of zero.
+    constexpr AllFixedSizeElementLocator() noexcept
+        : BaseAllFixedSizeElementLocator({}, ElementTraits::calculate_element_size(FixedSizesArray{}).stride)
+    {
+    }
 
     template <class Allocator>
     constexpr AllFixedSizeElementLocator(std::size_t, std::byte*, ElementSize element_stride, const Allocator&) noexcept
